@@ -37,7 +37,7 @@ var redirect = map[string]map[string]string{
 		"Interfaces": "", "FlagLoopback": "", "FlagUp": "", "JoinHostPort": "", "SplitHostPort": "", "ErrClosed": "",
 	},
 	"time": {
-		"Now": "Now", "Sleep": "Sleep", "After": "TimeAfter",
+		"Now": "Now", "Sleep": "Sleep", "After": "TimeAfter", "NewTimer": "NewTimer", "AfterFunc": "AfterFunc", "Timer": "Timer", "Since": "Since", "Until": "Until",
 		"Time": "", "Duration": "", "Nanosecond": "", "Microsecond": "", "Millisecond": "", "Second": "", "Minute": "", "Hour": "",
 		"Local": "", "UTC": "", "Location": "", "Month": "", "Weekday": "", "ParseInLocation": "", "Parse": "", "Date": "", "Unix": "", "LoadLocation": "", "FixedZone": "",
 		"Monday": "", "Tuesday": "", "Wednesday": "", "Thursday": "", "Friday": "", "Saturday": "", "Sunday": "",
@@ -50,6 +50,14 @@ var redirect = map[string]map[string]string{
 	"syscall": {
 		"SetsockoptInt": "SetsockoptInt",
 		"RawConn":       "", "SOL_SOCKET": "", "SO_REUSEADDR": "", "SO_REUSEPORT": "", "TCP_QUICKACK": "", "IPPROTO_TCP": "", "SO_BROADCAST": "", "Errno": "",
+	},
+	"sync/atomic": {
+		"Bool": "AtomicBool", "Int32": "AtomicInt32", "Int64": "AtomicInt64", "Uint32": "AtomicUint32", "Uint64": "AtomicUint64", "Uintptr": "AtomicUintptr", "Value": "AtomicValue", "Pointer": "AtomicPointer",
+		"LoadInt32": "LoadInt32", "LoadInt64": "LoadInt64", "LoadUint32": "LoadUint32", "LoadUint64": "LoadUint64",
+		"StoreInt32": "StoreInt32", "StoreInt64": "StoreInt64", "StoreUint32": "StoreUint32", "StoreUint64": "StoreUint64",
+		"AddInt32": "AddInt32", "AddInt64": "AddInt64", "AddUint32": "AddUint32", "AddUint64": "AddUint64",
+		"SwapInt32": "SwapInt32", "SwapInt64": "SwapInt64", "SwapUint32": "SwapUint32", "SwapUint64": "SwapUint64",
+		"CompareAndSwapInt32": "CompareAndSwapInt32", "CompareAndSwapInt64": "CompareAndSwapInt64", "CompareAndSwapUint32": "CompareAndSwapUint32", "CompareAndSwapUint64": "CompareAndSwapUint64",
 	},
 	"os": {
 		"Signal": "", "Interrupt": "", "ErrDeadlineExceeded": "",
@@ -570,7 +578,7 @@ func main() {
 				}
 				c.pkgNames[n] = p
 			}
-			if p == "sync/atomic" || p == "context" || p == "os/signal" || p == "runtime" {
+			if p == "context" || p == "os/signal" || p == "runtime" {
 				fatal("unsupported API: package %s imported by %s", p, name)
 			}
 		}
